@@ -303,6 +303,8 @@ package age
 //@   ensures#draws $draws == old($draws) + 1                                                                            [C06]
 
 //@ func ParseIdentities(f) (ids, err)
+//@   call bufio.NewScanner#1 requires id(arg0) == id(lr) && same(lr.R, f) && lr.N == 16777216                     [C18]
+//@   ensures#toolong err == nil ==> lr.N > 0                                                                     [C18]
 //@   ensures#scanerr err == nil ==> calls("Err",1) == old(calls("Err",1)) + 1 && lasterr("Err",1) == nil                          [C13 C18]
 //@   requires f != nil
 //@   loop 1 invariant scanner != nil && n == scanner.$ln && n >= 0
@@ -314,6 +316,8 @@ package age
 //@   ensures#nil err != nil ==> ids == nil                                                                       [C14 C18]
 
 //@ func ParseRecipients(f) (recs, err)
+//@   call bufio.NewScanner#1 requires id(arg0) == id(lr) && same(lr.R, f) && lr.N == 16777216                     [C18]
+//@   ensures#toolong err == nil ==> lr.N > 0                                                                     [C18]
 //@   ensures#scanerr err == nil ==> calls("Err",1) == old(calls("Err",1)) + 1 && lasterr("Err",1) == nil                          [C13 C18]
 //@   requires f != nil
 //@   loop 1 invariant scanner != nil && n == scanner.$ln && n >= 0
